@@ -283,6 +283,9 @@ def run_extension(ctx, stats):
     gres = [VO.run_guard(g) for g in guards]
     floats = [VO.gen_float_case(ctx.rng, q) for _ in range(nfloat)]
     fres = [VO.run_float(c) for c in floats]
+    nthr = 150 if q else 1000
+    thrs = [VO.gen_thr_case(ctx.rng, q) for _ in range(nthr)]
+    tres = [VO.run_thr(c) for c in thrs]
     # --- Coq: sessions in shards of 60, then one shard with calibrations + rejections
     per = 60
     groups = [list(range(i, min(i + per, nsess))) for i in range(0, nsess, per)]
@@ -292,14 +295,19 @@ def run_extension(ctx, stats):
     small = [t for _, t in calib] + [VO.guard_coq(g, r) for g, r in zip(guards, gres)]
     shards.append(C.SHARD_HEAD + imp + "Definition verdicts : list bool := [\n %s].\nEval vm_compute in (failing verdicts).\n"
                   % ";\n ".join(small or ["true"]))
+    tgroups = [list(range(i, min(i + 150, nthr))) for i in range(0, nthr, 150)]
+    shards += [C.SHARD_HEAD + imp + "Definition verdicts : list bool := [\n %s].\nEval vm_compute in (failing verdicts).\n"
+               % ";\n ".join(VO.thr_coq(thrs[i], tres[i]) for i in g) for g in tgroups]
     outs = C.run_shards(ctx.prop, shards)
-    bad_sess, bad_small, broken = set(), set(), []
+    bad_sess, bad_small, bad_thr, broken = set(), set(), set(), []
     for gi, (rc, out) in enumerate(outs):
         lists = C.parse_nat_lists(out)
         if rc != 0 or len(lists) != 1:
             broken.append(out[-1500:])
             continue
-        if gi < len(groups):
+        if gi > len(groups):
+            bad_thr |= {tgroups[gi - len(groups) - 1][k] for k in lists[0]}
+        elif gi < len(groups):
             bad_sess |= {groups[gi][k] for k in lists[0]}
         else:
             bad_small |= set(lists[0])
@@ -333,6 +341,16 @@ def run_extension(ctx, stats):
         if msg:
             C.report_violation(ctx, "C06 fails on the implementation: " + msg,
                                dict(case=dict(kind="float", **floats[i]), observed=fres[i]), found_input=True)
+    for i in range(nthr):
+        msg = VO.thr_oracle(thrs[i], tres[i])
+        if msg:
+            C.report_violation(ctx, "C06 fails on the implementation: " + msg,
+                               dict(case=dict(kind="thr", **thrs[i]), observed=tres[i]), found_input=True)
+        elif i in bad_thr:
+            C.report_violation(ctx, "correspondence object-level Voronoi model vs implementation broken on a fit with a "
+                                    "score threshold (oracle accepts the outputs)",
+                               dict(case=dict(kind="thr", **thrs[i]), observed=tres[i],
+                                    correspondence="thr_case_ok (Model/VorObj.v)"), found_input=False)
     for txt in broken:
         C.report_violation(ctx, "correspondence shard (sessions) did not evaluate", dict(coq_output=txt), found_input=False)
     # --- coverage
@@ -367,9 +385,19 @@ def run_extension(ctx, stats):
             refit += 1
         seen.add(key)
     st["calibrated_values"] = len(st["calibrated_values"])
+    st["threshold_cases"] = dict(
+        total=nthr,
+        relative_reached=sum(1 for c, r in zip(thrs, tres) if c["thr_type"] == "relative" and r.get("stopped")),
+        relative_not_reached=sum(1 for c, r in zip(thrs, tres) if c["thr_type"] == "relative" and r.get("stopped") is False),
+        absolute_reached=sum(1 for c, r in zip(thrs, tres) if c["thr_type"] == "absolute" and r.get("stopped")),
+        absolute_not_reached=sum(1 for c, r in zip(thrs, tres) if c["thr_type"] == "absolute" and r.get("stopped") is False),
+        rescaled=sum(1 for c in thrs if c["sp"] != 0),
+        raw_threshold_above_all_distances=sum(
+            1 for c, r in zip(thrs, tres) if c["thr_type"] == "relative" and r.get("dist") and
+            max(r["dist"]) * 2.0 ** (2 * c["sp"]) < c["num"] / c["den"]))
     stats["round3"] = st
-    return dict(evaluations=nsess + nguard + nfloat, nontrivial=refit,
-                validated=nsess - len(bad_sess) + nguard - len(bad_guard))
+    return dict(evaluations=nsess + nguard + nfloat + nthr, nontrivial=refit,
+                validated=nsess - len(bad_sess) + nguard - len(bad_guard) + nthr - len(bad_thr))
 
 
 def replay(ctx, obj):
@@ -381,7 +409,9 @@ def replay(ctx, obj):
         msg = VO.guard_oracle(c, VO.run_guard(c))
     elif kind == "float":
         msg = VO.float_oracle(c, VO.run_float(c))
-    if kind in ("session", "guard", "float"):
+    elif kind == "thr":
+        msg = VO.thr_oracle(c, VO.run_thr(c))
+    if kind in ("session", "guard", "float", "thr"):
         print("replay:", msg or "property holds on this input now")
         return 1 if msg else 0
     r = run_impl(c)
